@@ -289,9 +289,10 @@ def setups(chk, drv, g):
     from pygyro.initialisation.setups import setupCylindricalGrid
     rng = chk.rng
 
-    def body(npts, lay, deg):
+    def body(npts, lay, deg, plot=False, draw=0):
         comm = MPI.COMM_WORLD
-        grid, consts, t = setupCylindricalGrid(layout=lay, npts=list(npts), comm=comm, splineDegrees=list(deg))
+        kw = {'plotThread': True, 'drawRank': draw} if plot else {}
+        grid, consts, t = setupCylindricalGrid(layout=lay, npts=list(npts), comm=comm, splineDegrees=list(deg), **kw)
         lm = grid._layout_manager
         return {'nprocs': [int(x) for x in lm.nProcs],
                 'ext': [len(e) for e in grid.eta_grid],
@@ -318,7 +319,12 @@ def setups(chk, drv, g):
         if pre[0] in ('hang', 'bad'):
             oracle(chk, 'compute_2d_process_grid', case, pre, V)
             continue
-        res = MPI.run(size, body, npts, lay, deg, policy='random', seed=it)
+        # with a process that is only there for plotting: `size` computing processes + the drawing rank (any position)
+        plot = rng.random() < 0.35
+        draw = rng.randrange(size + 1) if plot else 0
+        if plot:
+            case.update(plotThread=True, drawRank=draw)
+        res = MPI.run(size + (1 if plot else 0), body, npts, lay, deg, plot, draw, policy='random', seed=it)
         chk.count('setup ranks=%d: %s' % (size, 'built' if res.ok else 'refused'))
         chk.case(('setup', tuple(npts), size), nontrivial=size > 1 and bool(V), sample=dict(case, nprocs=res.values()[0]['nprocs']) if (res.ok and size == 6) else None)
         chk.traces_validated += 1
@@ -333,12 +339,17 @@ def setups(chk, drv, g):
                 chk.diff('setup refusal', case, 'grid', 'error')
             continue
         vals = res.values()
+        if plot:
+            dv = vals[draw]
+            vals = [v for r, v in enumerate(vals) if r != draw]
+            if any(int(np.prod(dv['shapes'][n])) != 0 for n in NAMES):
+                chk.fail('C20:plot-rank-owns-data', 'the process that is only there for plotting owns grid points', case, actual=dv['shapes'])
         if not V:
             chk.fail('C20:grid-but-none-exists', 'setupCylindricalGrid builds layouts although no valid factorisation exists', case,
                      actual=vals[0]['nprocs'])
             continue
         n1, n2 = vals[0]['nprocs'][:2]
-        if n1 * n2 != size or any(v['nprocs'] != vals[0]['nprocs'] for v in vals) or vals[0]['ext'] != npts:
+        if n1 * n2 != size or any(v['nprocs'] != vals[0]['nprocs'] for v in vals) or any(v['ext'] != npts for v in vals):
             chk.fail('C20:invalid-grid', 'process grid of the built layouts does not multiply to the process count / differs between ranks', case,
                      actual=[v['nprocs'] for v in vals])
             continue
